@@ -771,14 +771,17 @@ fn public_route_tz(bytes: Option<&Arc<Vec<u8>>>, tz: &str, z: Option<&Zone>, rng
     let _ = Admin::UnsetTz;
     for ((api, t), g) in probes.iter().zip(got) {
         let want = answer(z, *api, *t);
-        if let Res::Err(_) = want {
+        if let Res::Err(e) = &want {
             // the zone's answer is not representable through the public API (|offset| >= 24 h):
-            // no particular answer is demanded, but an accepted zone must not make Local panic
-            if let Res::Panic(p) = &g {
-                return Ok(Some(format!(
-                    "PANIC {:?}(t={}) via TZ={:?}: the zone is accepted and answers {:?} at reader level, but Local panicked: {}",
-                    api, t, tz, z.offset_at(*t).map(|x| x.0), p
-                )));
+            // no particular answer is demanded, but an accepted zone must not make Local panic.
+            // (If the lookup itself fails or panics at reader level, the totality sweep reports it.)
+            if e.contains("not representable") {
+                if let Res::Panic(p) = &g {
+                    return Ok(Some(format!(
+                        "PANIC {:?}(t={}) via TZ={:?}: the zone is accepted and answers at reader level ({}), but Local panicked: {}",
+                        api, t, tz, e, p
+                    )));
+                }
             }
             continue;
         }
